@@ -42,3 +42,79 @@ Theorem C10_cache_refuted :
     (u_cached * u_cached <> v_now)%R.
 Proof. exact cache_leaks_history. Qed.
 Print Assumptions C10_cache_refuted.
+
+(* ---------- the positive half of history independence ----------
+   [frame s s']: every leaf / node registered in s is registered in s' with the same
+   uncertainty, dof, independence flag, correlation table, complex pairing and ensemble content.
+   Every report that succeeds in s gives the same answer in s' (the reports depend on the
+   session only through those attributes): *)
+From GTCV Require Import Invariant Frame CacheValid.
+
+Theorem C10_reports_depend_on_registered_attributes_only :
+  forall (N : Num) (s s' : KTypes.state (T N)), frame N s s' ->
+    (forall o c r, prop_u N s o c = Ok r -> prop_u N s' o c = Ok r) /\
+    (forall o c r, prop_v N s o c = Ok r -> prop_v N s' o c = Ok r) /\
+    (forall o c r, prop_df N s o c = Ok r -> prop_df N s' o c = Ok r) /\
+    (forall y x r, u_component N s y x = Ok r -> u_component N s' y x = Ok r) /\
+    (forall y x r, sensitivity N s y x = Ok r -> sensitivity N s' y x = Ok r) /\
+    (forall a b r, get_covariance_real N s a b = Ok r -> get_covariance_real N s' a b = Ok r) /\
+    (forall a b r, get_correlation_real N s a b = Ok r -> get_correlation_real N s' a b = Ok r).
+Proof.
+  intros N s s' F. repeat split.
+  - apply prop_u_frame; exact F.
+  - apply prop_v_frame; exact F.
+  - apply prop_df_frame; exact F.
+  - apply u_component_frame; exact F.
+  - apply sensitivity_frame; exact F.
+  - apply get_covariance_frame; exact F.
+  - apply get_correlation_frame; exact F.
+Qed.
+Print Assumptions C10_reports_depend_on_registered_attributes_only.
+
+(* [CV s]: the well-formedness invariant, plus: every cached uncertainty in s equals what a
+   fresh evaluation in s gives.  It holds initially and is preserved by EVERY operation --
+   declarations, operators, result(), every read, every failing call -- except a
+   set_correlation issued when some number has already been read; a set_correlation issued
+   while nothing has been read preserves it too ([quiet_here]). *)
+Theorem C10_caches_valid_initially :
+  forall (N : Num), eqb N (one N) (one N) = true -> forall ctx, CV N (init N ctx).
+Proof. intros N H ctx. apply CV_init. Qed.
+Print Assumptions C10_caches_valid_initially.
+
+Theorem C10_step_keeps_caches_valid :
+  forall (N : Num), eqb N (one N) (one N) = true ->
+  forall (s : KTypes.state (T N)) (o : KTypes.op (T N)),
+    CV N s -> quiet_here N s o -> CV N (fst (step N s o)).
+Proof. exact step_valid. Qed.
+Print Assumptions C10_step_keeps_caches_valid.
+
+Theorem C10_history_keeps_caches_valid :
+  forall (N : Num), eqb N (one N) (one N) = true ->
+  forall (p : list (KTypes.op (T N))) (s : KTypes.state (T N)),
+    CV N s -> quiet_run N s p -> CV N (fst (run N s p)).
+Proof. exact run_valid. Qed.
+Print Assumptions C10_history_keeps_caches_valid.
+
+(* in particular after any history without set_correlation, from the start of a session *)
+Theorem C10_history_without_set_correlation :
+  forall (N : Num), eqb N (one N) (one N) = true ->
+  forall ctx (p : list (KTypes.op (T N))),
+    no_set_correlation N p -> CV N (fst (run N (init N ctx) p)).
+Proof.
+  intros N H ctx p Hp. apply run_valid; [exact H|apply CV_init|apply quiet_of_no_set_correlation; exact Hp].
+Qed.
+Print Assumptions C10_history_without_set_correlation.
+
+(* what a number then reports does not depend on what was read before: the uncertainty read
+   through a possibly filled cache is what reading with an EMPTY cache gives in the current
+   state (or the square root of the Welch-Satterthwaite variance of the current state, the
+   other summation order the implementation uses when the dof was read first) *)
+Theorem C10_reported_uncertainty_is_history_free :
+  forall (N : Num), eqb N (one N) (one N) = true ->
+  forall (s : KTypes.state (T N)) i j o c u c',
+    CV N s -> get_real N s i = Ok (j, o, c) -> prop_u N s o c = Ok (u, c') ->
+    node_u N s o = Ok None ->
+    prop_u N s o None = Ok (u, Some u) \/
+    (exists cv d, welch_satterthwaite N s o None = Ok (cv, d, None) /\ libm1 N F_sqrt cv = Ok u).
+Proof. intros N _. exact (reported_u_history_free N). Qed.
+Print Assumptions C10_reported_uncertainty_is_history_free.
